@@ -713,7 +713,7 @@ class Engine:
             e = sp.end
             sp.end = None
             if e and e[0] == "return":
-                sp.events.append(("call", bb, name, tuple(args), e[1], t, self.fn.name, "inlined"))
+                sp.events.append(("call", bb, name, tuple(args), e[1], t, self.fn.name, tuple(args), "inlined"))
                 if t.get("target") is None:
                     sp.end = ("diverge", bb, name)
                     outs.append((None, sp))
@@ -723,7 +723,7 @@ class Engine:
             elif e and e[0] in ("cut", "loop-limit", "stop"):
                 # a loop inside the callee: the result is opaque on this path
                 ret = ("app", name, tuple(args))
-                sp.events.append(("call", bb, name, tuple(args), ret, t, self.fn.name, "opaque-loop"))
+                sp.events.append(("call", bb, name, tuple(args), ret, t, self.fn.name, tuple(args), "opaque-loop"))
                 self.havoc_mut_args(sp, bb, name, args)
                 if t.get("target") is None:
                     sp.end = ("diverge", bb, name)
@@ -839,6 +839,7 @@ class Engine:
         if k == "call":
             args = [self.operand(path, a) for a in t["args"]]
             name = M.call_name(t)
+            snap0 = tuple(self.snapshot(path, a) for a in args)
             outcomes = None
             if self.model is not None:
                 outcomes = self.model.call(self, path, bb, t, args)
@@ -849,12 +850,13 @@ class Engine:
                 if tgt is not None:
                     return self.do_inline(path, bb, t, args, tgt, go)
             if outcomes is None:
-                ret = ("app", name, tuple(self.snapshot(path, a) for a in args))
-                path.events.append(("call", bb, name, tuple(args), ret, t, self.fn.name))
+                snap = tuple(self.snapshot(path, a) for a in args)
+                ret = ("app", name, snap)
+                path.events.append(("call", bb, name, tuple(args), ret, t, self.fn.name, snap))
                 self.havoc_mut_args(path, bb, name, args)
                 outcomes = [(ret, None)]
             else:
-                path.events.append(("call", bb, name, tuple(args), outcomes[0][0] if len(outcomes) == 1 else None, t, self.fn.name))
+                path.events.append(("call", bb, name, tuple(args), outcomes[0][0] if len(outcomes) == 1 else None, t, self.fn.name, snap0))
             outs = []
             for n, (ret, asm) in enumerate(outcomes):
                 np_ = path if n == len(outcomes) - 1 else path.fork()
